@@ -130,7 +130,7 @@ def install(model, it, nested):
                 lambda interp, fi, args, kwargs: AbsStr(prov=('fn', fi.name) + tuple(_freeze(a) for a in args if isinstance(a, AbsStr))))
     for f in list(model.functions.values()):
         if f.name == 'check_interrupts_paragraph' and f.cls is not None:
-            it.func_hooks[f.qualname] = lambda interp, fi, args, kwargs: Cond(('interrupts', tk._cursor_of(args)))
+            it.func_hooks[f.qualname] = lambda interp, fi, args, kwargs: Cond(('interrupts', tk._cursor_of(args, interp)))
     for short in tk.SUMMARISED:
         if not model.has_func(short):
             continue
